@@ -10,6 +10,7 @@ import (
 	"github.com/internetarchive/Zeno/internal/pkg/config"
 	"github.com/internetarchive/Zeno/internal/pkg/controler/pause"
 	"github.com/internetarchive/Zeno/internal/pkg/log"
+	"github.com/internetarchive/Zeno/internal/pkg/verifhook"
 )
 
 var (
@@ -48,6 +49,7 @@ func CheckDiskUsage(path string) error {
 		panic(fmt.Sprintf("Error retrieving disk stats: %v\n", err))
 	}
 
+	verifhook.Statfs(&stat)
 	total := stat.Blocks * uint64(stat.Bsize)
 	free := stat.Bavail * uint64(stat.Bsize)
 
@@ -71,6 +73,7 @@ func WatchDiskSpace(path string, interval time.Duration) {
 	for {
 		select {
 		case <-diskWatcherCtx.Done():
+			verifhook.Obs("disk.exit", paused)
 			defer logger.Debug("closed")
 			if paused {
 				logger.Info("returning after resume")
@@ -78,7 +81,9 @@ func WatchDiskSpace(path string, interval time.Duration) {
 			}
 			return
 		case <-ticker.C:
+			verifhook.At("disk.tick")
 			err := CheckDiskUsage(path)
+			verifhook.Obs("disk.verdict", err, paused)
 
 			if err != nil && !paused {
 				logger.Warn("Low disk space, pausing the pipeline", "err", err.Error())
@@ -98,6 +103,7 @@ func WatchDiskSpace(path string, interval time.Duration) {
 
 // StopDiskWatcher stops the disk watcher by canceling the context and waiting for the goroutine to finish.
 func StopDiskWatcher() {
+	verifhook.At("disk.stop.enter")
 	diskWatcherCancel()
 	diskWatcherWg.Wait()
 }
